@@ -92,7 +92,7 @@ def g3_buffer_stores(F, S):
                 if pl["proj"] and pl["proj"][-1]["k"] == "field" and pl["ty"].startswith("std::boxed::Box<["):
                     S.bad("G3", "buffer-restore", "%s:%s" % (f.label, pl["proj"][-1]["name"]),
                           "%s stores a new buffer into field `%s` after construction: the window can be re-allocated with another length" % (f.label, pl["proj"][-1]["name"]), loc(st["span"]))
-                if len(pl["proj"]) == 1 and pl["proj"][0]["k"] == "deref" and f.self_struct and f.name != "new" \
+                if len(pl["proj"]) == 1 and pl["proj"][0]["k"] == "deref" and f.self_struct and not f.is_ctor \
                         and any(x["ty"]["s"].startswith("std::boxed::Box<[") for x in (F.struct_fields(f.self_struct) or [])) \
                         and str(pl.get("ty", "")).endswith(f.self_struct):
                     # `*self = other`: replaces the window together with everything else
@@ -108,7 +108,8 @@ def g3_buffer_stores(F, S):
                     fields = F.struct_fields(short(rv["path"])) or []
                     if any(x["ty"]["s"].startswith("std::boxed::Box<[") for x in fields):
                         n += 1
-                        in_ctor = f.name == "new" or (f.kind == "Closure" and (f.d.get("parent") or "").endswith("::new"))
+                        par_ = F.fn_by_path.get(f.d.get("parent") or "") if f.kind == "Closure" else None
+                        in_ctor = (f.is_ctor and f.self_struct == short(rv["path"])) or (par_ is not None and par_.is_ctor and par_.self_struct == short(rv["path"]))
                         if not in_ctor:
                             S.bad("G3", "buffer-aggregate", f.label, "%s builds a %s (with a buffer) outside its constructor" % (f.label, short(rv["path"])), loc(st["span"]))
                         else:
